@@ -358,7 +358,8 @@ theorem table_shape :
     Gen.Dispatch.checkOrder = ["ping", "introspect", "object", "managed", "method", "signature"] ∧
     Gen.Dispatch.dispatchedExpectingReplyAnswered = true ∧
     Gen.Dispatch.dispatchedNoReplySilent = true ∧
-    Gen.Dispatch.lookupFailureAnsweredWhenNoReply = true := by
+    Gen.Dispatch.lookupFailureAnsweredWhenNoReply = true ∧
+    Gen.Dispatch.managedFailureAnswered = true := by
   decide
 
 /-- "The caller's unique name when it asks for it": a method asks for it iff its positional
